@@ -342,7 +342,13 @@ pub fn install_guards(hang_secs: u64) {
                     ),
                     case,
                 };
-                emit_violation(&v);
+                let path = emit_violation(&v);
+                if s.property != "C07" {
+                    // the search did not deliver its result either: also a violation of the property
+                    // whose sweep was running
+                    println!("VIOLATION property={} replay={}", s.property, path);
+                    println!("  what: a search through the public API aborted instead of returning its matches (see the C07 line above)");
+                }
                 use std::io::Write;
                 let _ = std::io::stdout().flush();
                 std::process::exit(1);
